@@ -159,9 +159,18 @@ def main(rest):
         print("seeded %-28s property=%s tests=%s demo(with/without)=%s/%s detected=%s first_run=%s -> %s" % (
             sid, res["property"], "pass" if res["tests"]["exit"] == 0 else "FAIL", res["demo_with"], res["demo_without"],
             own["violation"] if own else None, own["first_run_index"] if own else None, "ok" if ok else "MISSED/INVALID"))
+    rpath = os.path.join(VERIF_DIR, "seeded", "RESULTS.json")
     if not ids and checks is None:
-        with open(os.path.join(VERIF_DIR, "seeded", "RESULTS.json"), "w") as fh:
+        with open(rpath, "w") as fh:
             json.dump({"results": results}, fh, indent=1)
+    elif ids and checks is None and "--merge" in rest and os.path.exists(rpath):
+        # re-run of some changes: their rows replace the recorded ones (rows of changes that no longer exist are dropped)
+        old = {r["id"]: r for r in json.load(open(rpath))["results"]}
+        for r in results:
+            old[r["id"]] = r
+        present = {os.path.basename(os.path.dirname(m)) for m in dirs}
+        with open(rpath, "w") as fh:
+            json.dump({"results": [old[k] for k in sorted(old) if k in present]}, fh, indent=1)
     return 1 if bad else 0
 
 
